@@ -259,7 +259,7 @@ P["C11"] = {"property": "C11", "level": "proof", "units": [
         "decreases": "inlen - i", "globals": {"g_b64_g": "g_b64_g"}}]},
       loop_macro_headers=["contracts/loopmacros_b64.h"],
       expect=["contract_C11_base64_encode\\.postcondition\\.3", "base64_encode\\.loop_invariant_step", "base64_encode\\.loop_decreases"],
-      timeout=900, tier="thorough"),
+      timeout=3000, tier="thorough", checks="none", safety_unit="C11.base64_encode.shape"),
     U("C11.base64_decode", "base64_decode (libjwt/base64.c)", B64_C, "contracts/base64_c.h",
       "unsigned n; __CPROVER_assume(n <= B64_IN_MAX); char *in = malloc(n); __CPROVER_assume(n == 0 || in != NULL); "
       "unsigned char *out = malloc((size_t)3 * (n / 4) + 1); __CPROVER_assume(out != NULL); base64_decode(in, n, out);",
